@@ -211,9 +211,8 @@ def run(prop, tier):
     need = ["truth", "via:select", "via:find", "via:getitem", "via:chain", "via:func", "deep", "children", "levels:1",
             "levels:2", "levels:3", "nonempty", "several-roots", "result-requeried", "attr:none", "attr:any",
             "attr:all", "attr:nany", "attr:nall", "name:any", "name:lit", "name:term", "name:fn"]
-    for k in need:
-        if not reach.get(k):
-            raise lib.MachineryError("vacuity: no recorded call of kind %r" % k)
+    need.append("via:reparent")
+    unreached = [k for k in need if not reach.get(k)]
 
     # ---- (3) validation ---------------------------------------------------
     t1 = time.time()
@@ -225,6 +224,10 @@ def run(prop, tier):
     print("timing: validation %.1fs (%d traces, %d events, %d JVMs)"
           % (time.time() - t1, val["traces"], val["events"], val["jvms"]))
 
+    # a kind of call that never occurred is a vacuity failure of the machinery only when the specification
+    # accepted everything (a rejected behaviour of the code may well be the reason)
+    if unreached and not val["rejected"]:
+        raise lib.MachineryError("vacuity: no recorded call of kind(s) %s" % ", ".join(unreached))
     selftest = binding_selftest(traces) if tier == "thorough" else None
 
     # ---- (4) verdict ------------------------------------------------------
